@@ -83,7 +83,7 @@ def main():
             {"name": "tla-trace", "path": "spec/Trace.tla", "serves_properties": sorted(CHECKS),
              "kind_free_text": "TLA+ state machine of the library (spec/Machine.tla + Contracts*.tla over BigNat/Dyadic/IEEE/DD/Ball/Elementary) checked by TLC: trace validation of executions recorded from the real crate by harness/ (impl -> spec), with a drift check against the transcription spec/AlgArith.tla"},
             {"name": "tla-mc", "path": "spec/MC_Small.tla", "serves_properties": ["C01", "C02", "C03", "C04", "C05", "C06", "C07", "C08", "C09", "C10", "C13", "C14", "C16", "C17", "C19"],
-             "kind_free_text": "exhaustive TLC models of the transcribed algorithms in small floating-point formats (P = 3, 4, 5): spec/MC_Small.tla (every operand pair / every value, sliced over 16 TLC processes), spec/MC_Machine.tla (all states reachable by arbitrary chains of operations), spec/AlgFlow.tla (exp reduction, quadrant selection)"},
+             "kind_free_text": "exhaustive TLC models of the transcribed algorithms in small floating-point formats (P = 3, 4, 5): spec/MC_Small.tla (every operand pair / every value, sliced over 16 TLC processes), spec/MC_Machine.tla (all states reachable by arbitrary chains of operations), spec/AlgFlow.tla (exp reduction, quadrant selection, atan and asin dispatch, powf parity, exp2 range switch / reduction / power-of-two scaling); sqrt, cbrt (nondeterministic faithful seed), powi, integer conversions and the remainder forms are modelled in MC_Small directly"},
         ],
         "checks": checks,
         "not_applicable": na,
